@@ -211,6 +211,19 @@ def run_case(case, seed):
             if xv is not None:
                 r.true(key + ':fixed-point', abs(float(np.real(ev)) - lmax) <= 1e-8 * (1 + abs(lmax)) and overlap(xv, v1) >= 1 - 1e-8,
                        'lambda %r vs %r, overlap %r' % (ev, lmax, overlap(xv, v1)))
+    # (d2) a maximal-rank guess taken straight from a library constructor (tt.ones with maximal ranks: every unfolding has rank
+    # one, the representation ranks are what counts) and handed over as it is, not orthonormalised by the caller
+    if ismax and d >= 2 and not g and solver in ('eig', 'eigh') and max(rg) > 1:
+        import scikit_tt.tensor_train as ttm
+        g2 = ttm.ones(list(dims), [1] * d, ranks=list(rg))
+        s2 = snap(g2)
+        with r.op(key + ':constructor-guess:call'):
+            ev, xt, _ = run(g2, A, False, number_ev=1, repeats=1, sigma=lmax + 0.5, **kw0)
+            xv = check_pair(float(np.real(ev)), xt, A, 'constructor-guess')
+            if xv is not None:
+                r.true(key + ':constructor-guess:exact-at-max-rank', abs(float(np.real(ev)) - lmax) <= 1e-8 * (1 + abs(lmax)) and overlap(xv, vdom) >= 1 - 1e-8,
+                       'guess tt.ones(ranks=%s): lambda %r vs %r, overlap %r, ranks returned %s' % (rg, ev, lmax, overlap(xv, vdom), xt.ranks))
+        r.true(key + ':constructor-guess:guess-unchanged', unchanged(g2, s2))
     # (f) deflation with shift == explicitly shifted operator
     if solver != 'eigs' or min(micro_dims) >= 3:
         gen = tt_from(rand_cores(rng, dims, [1] * d, [1] * (d + 1), c)); gen = (1.0 / gen.norm()) * gen
